@@ -1,6 +1,6 @@
 #!/bin/bash
 # run every registered quick check once on /repo; summary to .cache/sweep.log
-cd /verif
+cd "$(dirname "$0")/.."
 : > .cache/sweep.log
 for f in registry.d/*.json; do
   id=$(basename $f .json)
